@@ -1,142 +1,44 @@
 /-
-  Scc.Fun2Core.SemSim13 — simulation of a destructor call `s.d(args)` whose scrutinee is a variable
-  or a `new` (codata by name = by value on these).
+  Scc.Fun2Core.SemSim13 — simulation of a destructor call `s.d(args)`, for ANY scrutinee `s` (a
+  variable, a `new`, a call, another destructor call, `if`, `case`, `let`, …): the Fun machine pushes
+  the frame `dtorScrut d args env` and evaluates `s`; the Core machine is about to run
+  `⟦s⟧_{d(⟦args⟧; c)}`, no step.  The destructor as a consumer TERM is related to the new stack by
+  `CRel.dtor`; its (pure) arguments have values by type safety (`pureArgsM_typed`), which is what the
+  Core machine needs when it evaluates them BEFORE the scrutinee is run (`force_cr`).
 -/
 import Scc.Fun2Core.SemSim11
 
 namespace Scc.Fun2Core.Sem
-open Scc
+open Scc Scc.Fun2Core.Typed
 
 variable {q : Core.Prog} {p : Fun.CheckedProgram}
 
-/-- the translation of a variable / `new` with a consumer, and its value as a producer -/
-theorem pureS_cwc : ∀ (s : Fun.Term), pureS s = true → goodP p s = true →
-    ∀ (cons : Core.Term) (st : CompileState) (stmt : Core.Stmt) (st' : CompileState),
-    compileWithCont s cons st = .ok (stmt, st') →
-    ∃ P τ0, s.getType = some τ0 ∧ compile s (compileTy τ0) st = .ok (P, st') ∧
-      stmt = .cut (compileTy τ0) P cons ∧ isFocusedVal P = true ∧
-      (∀ pc k as t, P ≠ .xtor pc k as t) ∧
-      ∀ {G : Fun.Term → Prop} {n : Nat} {env : Fun.Env} {ρ0 ρ : CEnv} {v : Fun.Value},
-        (∀ cs, goodClauses p cs = true → ∀ K cl, Fun.findClause K cs = some cl →
-          G cl.body ∧ cl.names.Nodup ∧ cl.ctx.map (·.var) = cl.names) →
-        StOK q st' → TermNames s st → pureVal p s env = some v →
-        EnvRel G q n (fv s) env ρ0 → BoundOn (tfvTerm P []) ρ0 → AgreeOn (tfvTerm P []) ρ0 ρ →
-        ∃ V, Core.prdVal ρ P = .ok V ∧ VRel G q n v V
-  | .var x vty chi, _, _, cons, st, stmt, st', h => by
-    rw [cwc_var] at h
-    cases vty with
-    | none => simp at h
-    | some t0 =>
-      simp only [Except.ok.injEq, Prod.mk.injEq] at h
-      obtain ⟨rfl, rfl⟩ := h
-      refine ⟨_, t0, rfl, by rw [c_var], rfl, rfl, (fun _ _ _ _ e => by cases e), ?_⟩
-      intro G n env ρ0 ρ v _ _ _ hv he _ hag
-      obtain ⟨v', V', h1, h2, h3⟩ := he.get (y := x) (by simp [fv])
-      simp only [pureVal] at hv
-      rw [hv] at h1
-      cases h1
-      refine ⟨V', ?_, h3⟩
-      simp only [Core.prdVal]
-      rw [hag ⟨⟨x, 0⟩, .prd, compileTy t0⟩ (mem_tfv_var.2 rfl)]
-      exact h2
-  | .new cs cty0, _, hg, cons, st, stmt, st', h => by
-    rw [cwc_new] at h
-    simp only [goodP] at hg
-    cases cty0 with
-    | none => simp at h
-    | some t0 =>
-      simp only at h
-      cases hc : compile (.new cs (some t0)) (compileTy t0) st with
-      | error e => simp [hc] at h
-      | ok r =>
-        obtain ⟨P, st1⟩ := r
-        simp only [hc, Except.ok.injEq, Prod.mk.injEq] at h
-        obtain ⟨rfl, rfl⟩ := h
-        have hc' := hc
-        rw [c_new] at hc'
-        cases hcc : compileCoclauses cs st with
-        | error e => simp [hcc] at hc'
-        | ok rc =>
-          obtain ⟨cs', st2⟩ := rc
-          simp only [hcc, Except.ok.injEq, Prod.mk.injEq] at hc'
-          obtain ⟨rfl, rfl⟩ := hc'
-          refine ⟨_, t0, rfl, hc, rfl, rfl, (fun _ _ _ _ e => by cases e), ?_⟩
-          intro G n env ρ0 ρ v hgc hst htn hv he hbd hag
-          simp only [pureVal, Option.some.injEq] at hv
-          subst hv
-          exact ⟨.cocase ρ cs', rfl, .obj (hgc cs hg)
-            ⟨st, st2, hcc, hst, ⟨by simpa [fv] using htn.fv, by simpa [binderNames] using htn.bd,
-              htn.nosig⟩⟩
-            (by simpa [fv] using he) (by simpa [tfvTerm] using hbd) (by simpa [tfvTerm] using hag)⟩
-  | .paren t, hs, hg, cons, st, stmt, st', h => by
-    rw [cwc_paren] at h
-    obtain ⟨P, τ0, h1, h2, h3, h4, h5, h6⟩ :=
-      pureS_cwc t (by simpa [pureS] using hs) (by simpa [goodP] using hg) cons st stmt st' h
-    refine ⟨P, τ0, by simpa [Fun.Term.getType] using h1, by rw [c_paren]; exact h2, h3, h4, h5, ?_⟩
-    intro G n env ρ0 ρ v hgc hst htn hv he hbd hag
-    exact h6 hgc hst ⟨by simpa [fv] using htn.fv, by simpa [binderNames] using htn.bd, htn.nosig⟩
-      (by simpa [pureVal] using hv) (by simpa [fv] using he) hbd hag
-  | .lit _, h, _, _, _, _, _, _ => by simp [pureS] at h
-  | .op .., h, _, _, _, _, _, _ => by simp [pureS] at h
-  | .ifc .., h, _, _, _, _, _, _ => by simp [pureS] at h
-  | .ifz .., h, _, _, _, _, _, _ => by simp [pureS] at h
-  | .print .., h, _, _, _, _, _, _ => by simp [pureS] at h
-  | .letIn .., h, _, _, _, _, _, _ => by simp [pureS] at h
-  | .call .., h, _, _, _, _, _, _ => by simp [pureS] at h
-  | .ctor .., h, _, _, _, _, _, _ => by simp [pureS] at h
-  | .dtor .., h, _, _, _, _, _, _ => by simp [pureS] at h
-  | .case .., h, _, _, _, _, _, _ => by simp [pureS] at h
-  | .label .., h, _, _, _, _, _, _ => by simp [pureS] at h
-  | .goto .., h, _, _, _, _, _, _ => by simp [pureS] at h
-  | .exit .., h, _, _, _, _, _, _ => by simp [pureS] at h
+/-- names of the destructor built by the translation -/
+theorem consNames_dtor {args : Fun.Terms} {c : Core.Term} {st : CompileState} {as' : Core.Args}
+    {st' : CompileState} {n : Nat} (h : compileSubst args st = .ok (as', st'))
+    (htn : ArgsNames args st) (hcn : ConsNames c st n) (d : Core.Ident) (ty : Core.Ty) :
+    ConsNames (.xtor .cns d (argsSnoc as' .cns c) ty) st' n := by
+  have hfs : FS st st' := (rel_subst fs_stepRel args) st as' st' h
+  intro b hb
+  simp only [occTerm, occArgs_snoc, List.mem_append] at hb
+  rcases hb with hb | hb
+  · rcases occ_subst args st as' st' h htn.fv htn.bd b hb with h1 | h1
+    · simp at h1
+    · exact .inr ⟨fun e => hfs.2 htn.nosig (e ▸ h1), h1⟩
+  · exact (hcn.mono_st hfs.sub) b hb
 
-theorem argCtx_dtor (cty ty : Core.Ty) (d : Core.Ident) (P : Core.Term)
-    (hP : ∀ pc k as t, P ≠ .xtor pc k as t) :
-    ArgCtx (fun as => .cut cty P (.xtor .cns d as ty)) := by
-  intro as pc u A h
-  cases P with
-  | xtor pc' k as' t => exact absurd rfl (hP pc' k as' t)
-  | _ => simp [Core.Stmt.split, h]
-
-/-- a focused destructor cut at a codata type invokes the producer value -/
-theorem step_cut_invoke {cty ty : Core.Ty} (hcd : Core.isCodata q.codataTypes cty = true)
-    {P : Core.Term} {d : Core.Ident} {as : Core.Args} {ρ : CEnv} {out : Out} {n : Nat}
-    {vs : List CVal} {pv : CVal}
-    (hP : isFocusedVal P = true) (hPx : ∀ pc k as t, P ≠ .xtor pc k as t)
-    (hall : argsAllVar as = true) (hav : Core.argVals ρ as = .ok vs) (hpv : Core.prdVal ρ P = .ok pv) :
-    Core.step q ⟨.cut cty P (.xtor .cns d as ty), ρ, out, n⟩ =
-      Core.State.invoke ⟨.cut cty P (.xtor .cns d as ty), ρ, out, n⟩ pv d vs := by
-  have hs : Core.sigmaStep (Core.sigmaName n) (.cut cty P (.xtor .cns d as ty)) = none := by
-    cases P with
-    | xtor pc' k as' t => exact absurd rfl (hPx pc' k as' t)
-    | op a o b =>
-      simp only [isFocusedVal, Bool.and_eq_true] at hP
-      simp [Core.sigmaStep, Core.Stmt.split, args_split_allVar as hall]
-    | mu pc v t s => simp [isFocusedVal] at hP
-    | _ => simp [Core.sigmaStep, Core.Stmt.split, args_split_allVar as hall]
-  simp only [Core.step, hs, hcd, Core.stepCut, if_true, Core.cnsVal, hav, hpv]
-
-theorem step_dtorApply_obj (p : Fun.CheckedProgram) (d : String) (vs : List Fun.Value)
-    (cs : Fun.Clauses) (envc : Fun.Env) (k : Fun.Stack) :
-    Fun.step p (.ret (.obj cs envc) (.dtorApply d vs :: k)) =
-      (match Fun.findClause d cs with
-        | none => .stuck (.noClause d)
-        | some cl =>
-          match Fun.bindAll cl.names vs envc with
-          | none => .stuck (.arity d)
-          | some env' => .next (.eval cl.body env' k) none) := rfl
-
-set_option maxHeartbeats 400000 in
-/-- `s.d(args)` with `s` a variable or a `new` -/
+/-- `s.d(args)` -/
 theorem eval_dtor (X : Ctx p q) {sc : Fun.Term} {d : String} {ta : Fun.Tys} {as : Fun.Terms}
     {rty : Option Fun.Ty} {env : Fun.Env} {k : Fun.Stack} {c : Core.Term} {s : Core.Stmt}
     {ρ0 ρ : CEnv} {out : Out} {n : Nat} (hg : good p (.dtor sc d ta as rty) = true)
     (hc : Compiled q n (.dtor sc d ta as rty) c s)
-    (he : EnvRel (GP p) q n (fv (.dtor sc d ta as rty)) env ρ0) (hr : CRel (GP p) q n k c ρ0)
-    (hbd : BoundOn (tfvStmt s []) ρ0) (hag : AgreeOn (tfvStmt s []) ρ0 ρ) :
-    Chunk p q (R p q) true true μ (.eval (.dtor sc d ta as rty) env k) ⟨s, ρ, out, n⟩ := by
+    (he : EnvRel (GP p) p q n (fv (.dtor sc d ta as rty)) env ρ0) (hr : CRel (GP p) p q n k c ρ0)
+    (hbd : BoundOn (tfvStmt s []) ρ0) (hag : AgreeOn (tfvStmt s []) ρ0 ρ)
+    (hT : STM p (.eval (.dtor sc d ta as rty) env k)) :
+    Chunk p q (R p q) true true (funSize (.dtor sc d ta as rty))
+      (.eval (.dtor sc d ta as rty) env k) ⟨s, ρ, out, n⟩ := by
   simp only [good, Bool.and_eq_true] at hg
-  obtain ⟨⟨⟨⟨hps, hgps⟩, hcds⟩, hgas⟩, _⟩ := hg
+  obtain ⟨⟨⟨hgs, _⟩, hgas⟩, _⟩ := hg
   have hpf := goodPs_pureFOs p as hgas
   obtain ⟨st, st', hcwc, hst, htn, hcn⟩ := hc
   rw [cwc_dtor] at hcwc
@@ -149,238 +51,40 @@ theorem eval_dtor (X : Ctx p q) {sc : Fun.Term} {d : String} {ta : Fun.Tys} {as 
     | none => simp [hty] at hcwc
     | some τs =>
       simp only [hty] at hcwc
-      rw [argsSnoc_eq] at hcwc
-      obtain ⟨P, τ0, hgt0, hcP, rfl, hPf, hPx, hPval⟩ := pureS_cwc sc hps hgps _ st1 s st' hcwc
-      have hτ : τ0 = τs := by
-        rw [getType_eq, hgt0] at hty
-        exact Option.some.inj hty
-      subst hτ
-      have hcd : Core.isCodata q.codataTypes (compileTy τ0) = true := by
-        rw [X.cod τ0]
-        simpa [cdO, hgt0] using hcds
+      -- typing: the scrutinee has a codata type, the arguments have values
+      obtain ⟨hcd, vs, hvs⟩ : Core.isCodata q.codataTypes (compileTy τs) = true ∧
+          ∃ vs, pureArgs p as env = some vs := by
+        cases hT with
+        | eval Γ τ0 he0 ht hk =>
+          simp only [TypedM] at ht
+          obtain ⟨_, _, σ, dd, sg, hsc, hd, _, _, hargs⟩ := ht
+          have h1 := getType_of_typed p _ _ _ hsc
+          rw [hty] at h1; cases h1
+          obtain ⟨vs, h2, _⟩ := pureArgsM_typed X.progM he0 as sg.args
+            (pureFOs_pure (goodClauses p) as hpf) hargs
+          exact ⟨by rw [X.cod τs]; exact isCodataTy_of_codataDecl hd, vs, h2⟩
       have fas : FS st st1 := (rel_subst fs_stepRel as) st as' st1 hcs
-      have fsc := fs_compile hcP
+      have fsc := fs_cwc hcwc
       have hst1 := hst.of_fresh fsc.1
+      have tnas : ArgsNames as st :=
+        ⟨fun y hy => htn.fv y (by simp [fv, hy]), fun y hy => htn.bd y (by simp [binderNames, hy]),
+          htn.nosig⟩
       have tnsc : TermNames sc st1 := htn.of_sub (fun y hy => by simp [fv, hy])
         (fun y hy => by simp [binderNames, hy]) fas
-      -- Fun: the scrutinee
-      have f0 : FSteps p (.eval (.dtor sc d ta as rty) env k)
-          (.eval sc env (.dtorScrut d as env :: k)) [] 1 := .one rfl
-      have hpsc : Fun.pureTerm sc = true := pureFO_pure (goodClauses p) sc (goodP_pureFO p sc hgps)
-      cases hvsc : pureVal p sc env with
-      | none =>
-        obtain ⟨j, s1, w, fj, h1, h2⟩ := fun_pure_none p sc env (.dtorScrut d as env :: k) hpsc hvsc
-        have := f0.trans fj
-        simp only [List.append_nil] at this
-        exact .inl ⟨_, s1, .stuck w, this, by rw [h1]; rfl, fun hf => absurd hf (bad_not_finished h2)⟩
-      | some vsc =>
-        obtain ⟨j1, _, fj1⟩ := fun_pure p sc env vsc (.dtorScrut d as env :: k) hpsc hvsc
-        have f1' : FSteps p (.ret vsc (.dtorScrut d as env :: k)) (.args (.dtor vsc d) [] as env k) [] 1 :=
-          .one rfl
-        have f01 := (f0.trans fj1).trans f1'
-        simp only [List.append_nil] at f01
-        cases hvs : pureArgs p as env with
-        | none =>
-          obtain ⟨j, s1, w, fj, h1, h2⟩ :=
-            fun_pureArgs_none p as env (.dtor vsc d) [] k (pureFOs_pure (goodClauses p) as hpf) hvs
-          have := f01.trans fj
-          simp only [List.append_nil] at this
-          exact .inl ⟨_, s1, .stuck w, this, by rw [h1]; rfl, fun hf => absurd hf (bad_not_finished h2)⟩
-        | some vs =>
-          obtain ⟨j2, fj2⟩ := fun_pureArgs p as env vs (.dtor vsc d) [] k
-            (pureFOs_pure (goodClauses p) as hpf) hvs
-          have f2' : FSteps p (.args (.dtor vsc d) ([] ++ vs) .nil env k)
-              (.ret vsc (.dtorApply d vs :: k)) [] 1 := .one rfl
-          have f012 := (f01.trans fj2).trans f2'
-          simp only [List.append_nil, List.nil_append] at f012
-          -- the value of the scrutinee on the Core side (in the ideal environment)
-          have hbdP : BoundOn (tfvTerm P []) ρ0 := hbd.mono fun y hy => mem_tfv_cut.2 (.inl hy)
-          have hagP : AgreeOn (tfvTerm P []) ρ0 ρ := hag.mono fun y hy => mem_tfv_cut.2 (.inl hy)
-          have hbdas : BoundOn (tfvArgs as' []) ρ0 := hbd.mono fun y hy =>
-            mem_tfv_cut.2 (.inr (mem_tfv_xtor.2 ((mem_tfvArgs_app _ _).2 (.inl hy))))
-          have hagas : AgreeOn (tfvArgs as' []) ρ0 ρ := hag.mono fun y hy =>
-            mem_tfv_cut.2 (.inr (mem_tfv_xtor.2 ((mem_tfvArgs_app _ _).2 (.inl hy))))
-          have hagc : AgreeOn (tfvTerm c []) ρ0 ρ := hag.mono fun y hy =>
-            mem_tfv_cut.2 (.inr (mem_tfv_xtor.2 ((mem_tfvArgs_app _ _).2
-              (.inr (mem_tfv_args_cons.2 (.inl hy))))))
-          have hesc : EnvRel (GP p) q n (fv sc) env ρ0 := he.sub fun y hy => by simp [fv, hy]
-          -- Core: the arguments
-          obtain ⟨i1, ρ1, n1, as'', Vs, hc1, hn1, hext1, hall, hsb, hav, hvl⟩ :=
-            core_args (G := GP p) (q := q) (p := p) (goodClauses p) (goodClauses_find p) as hpf
-              (fun a => .cut (compileTy τ0) P (.xtor .cns ⟨d, 0⟩ a (compileTy τ0)))
-              (argCtx_dtor _ _ _ _ hPx) (.cons .cns c .nil) env vs st as' st1 n ρ0 ρ n out .nil []
-              hcs hst1
-              ⟨fun y hy => htn.fv y (by simp [fv, hy]), fun y hy => htn.bd y (by simp [binderNames, hy]),
-                htn.nosig⟩ hvs
-              (he.sub fun y hy => by simp [fv, hy]) hbdas hagas rfl trivial rfl
-          simp only [appArgs, List.nil_append] at hc1 hsb hav
-          obtain ⟨ρ01, hext0, hag1⟩ := hext1.agree (ρ0 := ρ0)
-          have hr1 : CRel (GP p) q n1 k c ρ1 :=
-            ((hr.mono hn1).sigExt hext0 (hcn.sig_lt (Nat.le_refl n))).agree (hag1 _ hagc)
-          cases hr1 with
-          | @mk _ _ _ cv hcv hk hi hbc htyc =>
-            -- the consumer argument
-            have hreach : ∃ i2 ρ2 n2 pc z tz, CSteps q
-                ⟨.cut (compileTy τ0) P (.xtor .cns ⟨d, 0⟩ (appArgs as'' (.cons .cns c .nil)) (compileTy τ0)),
-                  ρ1, out, n1⟩
-                ⟨.cut (compileTy τ0) P (.xtor .cns ⟨d, 0⟩
-                  (appArgs as'' (.cons .cns (.var pc z tz) .nil)) (compileTy τ0)), ρ2, out, n2⟩ i2 ∧
-                n1 ≤ n2 ∧ SigExt n1 ρ1 ρ2 ∧
-                Core.argVals ρ2 (appArgs as'' (.cons .cns (.var pc z tz) .nil)) = .ok (Vs ++ [cv]) := by
-              cases hcv' : c.isVar with
-              | true =>
-                cases c with
-                | var pc z tz =>
-                  simp only [Core.cnsVal] at hcv
-                  exact ⟨0, ρ1, n1, pc, z, tz, .refl _, Nat.le_refl _, .refl _ _,
-                    argVals_app_single as'' Vs hav hcv⟩
-                | _ => simp [Core.Term.isVar] at hcv'
-              | false =>
-                have hsp := argCtx_dtor (compileTy τ0) (compileTy τ0) ⟨d, 0⟩ P hPx
-                  (appArgs as'' (.cons .cns c .nil)) .cns c (fun h => appArgs as'' (.cons .cns h .nil)) (by
-                    rw [args_split_app _ _ hall, args_split_cons_nonvar hcv'])
-                have s1 := step_sigma (q := q)
-                  (st := ⟨.cut (compileTy τ0) P (.xtor .cns ⟨d, 0⟩ (appArgs as'' (.cons .cns c .nil))
-                    (compileTy τ0)), ρ1, out, n1⟩) hsp
-                simp only [Core.sigmaCut] at s1
-                have s2 := step_cut_mu (q := q) (cty := c.ty) (ty := c.ty)
-                  (by rw [← coreGetType_eq_ty]; exact htyc) (a := Core.sigmaName n1)
-                  (s := .cut (compileTy τ0) P (.xtor .cns ⟨d, 0⟩
-                    (appArgs as'' (.cons .cns (.var .cns (Core.sigmaName n1) c.ty) .nil)) (compileTy τ0)))
-                  (ρ := ρ1) (out := out) (n := n1 + 1) hi hcv .prd
-                refine ⟨2, (Core.sigmaName n1, cv) :: ρ1, n1 + 1, .cns, Core.sigmaName n1, c.ty,
-                  (CSteps.one s1).trans (.one s2), Nat.le_succ _,
-                  (SigExt.refl n1 ρ1).cons (Nat.le_refl n1), ?_⟩
-                refine argVals_app_single as'' Vs ?_ (lookup_cons_self _ _ _)
-                rw [argVals_sigExt ((SigExt.refl n1 ρ1).cons (Nat.le_refl n1)) as'' hsb]
-                exact hav
-            obtain ⟨i2, ρ2, n2, pc, z, tz, hc2, hn2, hext2, hav2⟩ := hreach
-            have hext12 : SigExt n ρ ρ2 := hext1.trans hext2 hn1
-            -- the value of the scrutinee in the final environment
-            obtain ⟨ρ02, hesc2, hbdP2, hagP2⟩ := ideal_sigExt hesc hbdP hagP hext12 tnsc.fv_ne_sig
-            obtain ⟨Vsc, hpv, hvsr⟩ := hPval (G := GP p) (n := n) (goodClauses_find p) hst tnsc hvsc
-              hesc2 hbdP2 hagP2
-            have hall2 : argsAllVar (appArgs as'' (.cons .cns (.var pc z tz) .nil)) = true := by
-              simp [argsAllVar_app, hall, argsAllVar, Core.Term.isVar]
-            have s3 := step_cut_invoke (q := q) (cty := compileTy τ0) (ty := compileTy τ0) hcd
-              (d := ⟨d, 0⟩) (out := out) (n := n2) hPf hPx hall2 hav2 hpv
-            -- the Fun value must be an object
-            cases hvsr with
-            | int a => exact .inl ⟨_, _, .stuck .notCodata, f012, rfl, fun h => h.elim⟩
-            | con _ => exact .inl ⟨_, _, .stuck .notCodata, f012, rfl, fun h => h.elim⟩
-            | cont _ => exact .inl ⟨_, _, .stuck .notCodata, f012, rfl, fun h => h.elim⟩
-            | @obj cs envc ρ0c ρc cs'c hgood hcc hec hbdc hagc' =>
-              have hstep := step_dtorApply_obj p d vs cs envc k
-              cases hf : Fun.findClause d cs with
-              | none =>
-                rw [hf] at hstep
-                exact .inl ⟨_, _, .stuck (.noClause d), f012, by rw [hstep]; rfl, fun h => h.elim⟩
-              | some cl =>
-                rw [hf] at hstep
-                simp only at hstep
-                cases hbA : Fun.bindAll cl.names vs envc with
-                | none =>
-                  rw [hbA] at hstep
-                  exact .inl ⟨_, _, .stuck (.arity d), f012, by rw [hstep]; rfl, fun h => h.elim⟩
-                | some env' =>
-                  rw [hbA] at hstep
-                  obtain ⟨hgb, hnd, hnames⟩ := hgood d cl hf
-                  obtain ⟨stc, stc', hcomp, hstokc, hcnc⟩ := hcc
-                  obtain ⟨b', sa, sb, τb, hgtb, hfind, hcb, hfs1, hfs2, htfv⟩ :=
-                    coclauses_find fs_stepRel d cs stc cs'c stc' cl hcomp hf
-                  obtain ⟨hm1, hm2, hm3, hm4⟩ := findClause_mem cs d cl hf
-                  have ha_fresh := freshCovar_not_mem sa
-                  have ha_sig := freshCovar_ne_sig sa
-                  have hsub1 : ∀ x ∈ stc.usedVars, x ∈ sa.usedVars := hfs1.sub
-                  -- binders and the covariable
-                  have hctxvar : ∀ bb ∈ compileContext cl.ctx, ∃ x ∈ cl.names, bb.var = ⟨x, 0⟩ := by
-                    intro bb hbb
-                    simp only [compileContext, List.mem_map] at hbb
-                    obtain ⟨fb, hfb, rfl⟩ := hbb
-                    exact ⟨fb.var, by rw [← hnames]; exact List.mem_map.2 ⟨fb, hfb, rfl⟩, rfl⟩
-                  have hanot : ∀ bb ∈ compileContext cl.ctx,
-                      bb.var ≠ (⟨(freshCovar sa).1, 0⟩ : Core.Ident) := by
-                    intro bb hbb e
-                    obtain ⟨x, hx, e'⟩ := hctxvar bb hbb
-                    rw [e'] at e
-                    have : x = (freshCovar sa).1 := by
-                      have := congrArg Core.Ident.name e
-                      simpa using this
-                    exact ha_fresh (this ▸ hsub1 x (hcnc.bd x (hm3 x hx)))
-                  -- bind on the ideal environment of the closure
-                  have hbA' : Fun.bindAll (cl.ctx.map (·.var)) vs envc = some env' := by
-                    rw [hnames]; exact hbA
-                  have hec' : EnvRel (GP p) q n2
-                      ((fv cl.body).filter (fun x => !(cl.ctx.map (·.var)).contains x)) envc
-                      ((⟨(freshCovar sa).1, 0⟩, cv) :: ρ0c) := by
-                    refine ((hec.mono (Nat.le_trans hn1 hn2)).sub fun x hx =>
-                      hm1 x (by rw [← hnames]; exact hx)).agree fun y hy => lookup_cons_ne ?_ _ _
-                    intro e
-                    have : (freshCovar sa).1 = y := by cases e; rfl
-                    exact ha_fresh (this ▸ hsub1 y (hcnc.fv y (hm1 y (by rw [← hnames]; exact hy))))
-                  obtain ⟨ρ0n, hbind0, he'⟩ := EnvRel.bindAll (G := GP p) (q := q) (xs := fv cl.body)
-                    hec' (hvl.mono (Nat.le_trans hn1 hn2)) (by rw [hnames]; exact hnd) hbA'
-                  have hlen : (compileContext cl.ctx).length = Vs.length := bind_length _ _ _ _ hbind0
-                  obtain ⟨ρn, hbind1⟩ := bind_ok_of_length (compileContext cl.ctx) Vs
-                    ((⟨(freshCovar sa).1, 0⟩, cv) :: ρc) hlen
-                  have hbind1' : Core.Env.bind ρc (compileContext cl.ctx ++
-                      [⟨⟨(freshCovar sa).1, 0⟩, .cns, compileTy τb⟩]) (Vs ++ [cv]) = .ok ρn := by
-                    rw [bind_snoc _ _ _ _ _ hlen]; exact hbind1
-                  have hcore : Core.step q ⟨.cut (compileTy τ0) P (.xtor .cns ⟨d, 0⟩
-                      (appArgs as'' (.cons .cns (.var pc z tz) .nil)) (compileTy τ0)), ρ2, out, n2⟩ =
-                      .next ⟨b', ρn, out, n2⟩ := by
-                    rw [s3]
-                    simp only [Core.State.invoke, Core.State.select, hfind, hbind1', Core.State.goto]
-                  have hla : Core.Env.lookup ρ0n ⟨(freshCovar sa).1, 0⟩ = .ok cv := by
-                    rw [bind_lookup_not_mem hbind0 hanot]
-                    exact lookup_cons_self _ _ _
-                  have hncb : Core.isCodata q.codataTypes (compileTy τb) = false := by
-                    have h1 := good_ncd p cl.body hgb
-                    rw [hgtb] at h1
-                    rw [X.cod τb]
-                    simpa [ncdO] using h1
-                  refine .inr ⟨_, _, .eval cl.body env' k, [], i1 + i2 + 1, _, f012,
-                    .inr ⟨none, hstep, rfl⟩, (fun _ => .inr (.inl (by intro h; cases h))), (fun _ => .inl (by omega)),
-                    (hc1.trans hc2).trans (.one hcore), by simp, ?_⟩
-                  refine SRel.eval (c := .var .cns ⟨(freshCovar sa).1, 0⟩ (compileTy τb)) (ρ0 := ρ0n)
-                    hgb ?_ he' ?_ ?_ ?_
-                  · refine ⟨(freshCovar sa).2, sb, hcb, hstokc.of_fresh hfs2.1, ?_, ?_⟩
-                    · refine ⟨fun x hx => ?_, fun x hx => ?_, ?_⟩
-                      · rw [freshCovar_used]
-                        refine List.mem_cons_of_mem _ (hsub1 x ?_)
-                        by_cases hxn : x ∈ cl.names
-                        · exact hcnc.bd x (hm3 x hxn)
-                        · exact hcnc.fv x (hm1 x (List.mem_filter.2 ⟨hx, by simpa using hxn⟩))
-                      · rw [freshCovar_used]
-                        exact List.mem_cons_of_mem _ (hsub1 x (hcnc.bd x (hm2 x hx)))
-                      · rw [freshCovar_used]
-                        simp only [List.mem_cons, not_or]
-                        exact ⟨fun e => ha_sig e.symm, hfs1.2 hcnc.nosig⟩
-                    · intro b hb
-                      simp only [occTerm, List.mem_singleton] at hb
-                      subst hb
-                      exact .inr ⟨ha_sig, by rw [freshCovar_used]; exact List.mem_cons_self⟩
-                  · exact .mk (by simpa [Core.cnsVal] using hla) (hk.mono hn2) trivial
-                      (fun b hb => by rw [mem_tfv_var] at hb; subst hb; exact ⟨_, hla⟩) hncb
-                  · refine bind_bound hbind0 fun y hy hne => ?_
-                    by_cases hya : y.var = ⟨(freshCovar sa).1, 0⟩
-                    · exact ⟨cv, by rw [hya]; exact lookup_cons_self _ _ _⟩
-                    · rw [lookup_cons_ne (fun e => hya e.symm)]
-                      refine hbdc y (htfv y hy fun bb hbb e => ?_)
-                      rcases List.mem_append.1 hbb with h | h
-                      · exact hne bb h (by rw [e])
-                      · simp only [List.mem_singleton] at h
-                        subst h
-                        exact hya (by rw [← e])
-                  · refine bind_agree hbind0 hbind1 fun y hy hne => ?_
-                    by_cases hya : y.var = ⟨(freshCovar sa).1, 0⟩
-                    · rw [hya, lookup_cons_self, lookup_cons_self]
-                    · rw [lookup_cons_ne (fun e => hya e.symm), lookup_cons_ne (fun e => hya e.symm)]
-                      refine hagc' y (htfv y hy fun bb hbb e => ?_)
-                      rcases List.mem_append.1 hbb with h | h
-                      · exact hne bb h (by rw [e])
-                      · simp only [List.mem_singleton] at h
-                        subst h
-                        exact hya (by rw [← e])
+      -- pad the ideal environment so that the free variables of the destructor are bound
+      obtain ⟨ρp, hep, hrp, hbdp, hagp, hbdK⟩ :=
+        ideal_pad (tfvTerm (.xtor .cns ⟨d, 0⟩ (argsSnoc as' .cns c) (compileTy τs)) []) he hr hbd hag
+      have hrd : CRel (GP p) p q n (.dtorScrut d as env :: k)
+          (.xtor .cns ⟨d, 0⟩ (argsSnoc as' .cns c) (compileTy τs)) ρp :=
+        CRel.dtor (ρ0 := ρp) hcs hst1 tnas hpf (goodClauses_find p) hvs
+          (hep.sub fun y hy => by simp [fv, hy]) hrp (hcn.sig_lt (Nat.le_refl n)) hbdK (.refl _ _) hcd
+      have f1 : Fun.step p (.eval (.dtor sc d ta as rty) env k) =
+          .next (.eval sc env (.dtorScrut d as env :: k)) none := rfl
+      refine .inr ⟨0, _, _, [], 0, _, .refl _, .inr ⟨none, f1, rfl⟩,
+        (fun _ => .inr (.inl (by intro h; cases h))),
+        (fun _ => .inr (by simp only [msize, funSize]; omega)), .refl _, by simp, ?_⟩
+      exact SRel.eval (ρ0 := ρp) hgs
+        ⟨st1, st', hcwc, hst, tnsc, consNames_dtor hcs tnas hcn _ _⟩
+        (hep.sub fun y hy => by simp [fv, hy]) hrd hbdp hagp
 
 end Scc.Fun2Core.Sem
